@@ -416,6 +416,113 @@ run_pullup(void *arg)
 	vh_fini();
 }
 
+// ---------------------------------------------------------------------------------
+// (f) websocket, receive side: a raw TCP client sends the upgrade request and
+//     two binary frames as ONE byte stream, cut at every offset from shortly
+//     before the end of the request to the end (so that frame bytes travel
+//     with the handshake, straddle it, or follow it)
+// ---------------------------------------------------------------------------------
+#include <arpa/inet.h>
+#include <fcntl.h>
+#include <netinet/in.h>
+#include <netinet/tcp.h>
+static void
+run_wsraw(void *arg)
+{
+	int blen = (int) (intptr_t) arg; // body length of the first message
+	vs_tcp_grace_us = 1500;
+	vh_init(0);
+	nng_socket   s;
+	nng_listener l;
+	int          port = 0;
+	VH_OK(nng_pair1_open_poly(&s)); // several peers may come and go
+	VH_OK(nng_socket_set_ms(s, NNG_OPT_RECVTIMEO, 50));
+	VH_OK(nng_listen(s, "ws://127.0.0.1:0/c01", &l, 0));
+	VH_OK(nng_listener_get_int(l, NNG_OPT_BOUND_PORT, &port));
+	static const char *REQ =
+	    "GET /c01 HTTP/1.1\r\nHost: 127.0.0.1\r\nUpgrade: websocket\r\n"
+	    "Connection: Upgrade\r\nSec-WebSocket-Key: dGhlIHNhbXBsZSBub25jZQ==\r\n"
+	    "Sec-WebSocket-Version: 13\r\n"
+	    "Sec-WebSocket-Protocol: pair1.sp.nanomsg.org\r\n\r\n";
+	uint8_t st[1200];
+	size_t  rl = strlen(REQ), o;
+	memcpy(st, REQ, rl);
+	o = rl;
+	// two masked binary frames (mask key 0 = identity), SP payload = hop + body
+	int lens[2] = { blen, 3 };
+	for (int m = 0; m < 2; m++) {
+		int pl  = 4 + lens[m];
+		st[o++] = 0x82;
+		if (pl < 126)
+			st[o++] = (uint8_t) (0x80 | pl);
+		else {
+			st[o++] = 0x80 | 126;
+			st[o++] = (uint8_t) (pl >> 8);
+			st[o++] = (uint8_t) pl;
+		}
+		memset(st + o, 0, 4);
+		o += 4;
+		vp_put32(st + o, 1);
+		o += 4;
+		for (int i = 0; i < lens[m]; i++)
+			st[o++] = pat(m, (size_t) i);
+	}
+	size_t total = o, first = rl - 12;
+	int    ncase = (int) (total - first);
+	int    per   = 6;
+	int    batch = vs_choose(VK_ENV, (ncase + per - 1) / per);
+	for (int k = batch * per; k < (batch + 1) * per && k < ncase; k++) {
+		size_t             cut = first + (size_t) k;
+		struct sockaddr_in sa;
+		memset(&sa, 0, sizeof(sa));
+		sa.sin_family      = AF_INET;
+		sa.sin_port        = htons((uint16_t) port);
+		sa.sin_addr.s_addr = htonl(INADDR_LOOPBACK);
+		int fd = socket(AF_INET, SOCK_STREAM, 0), one = 1;
+		setsockopt(fd, IPPROTO_TCP, TCP_NODELAY, &one, sizeof(one));
+		if (connect(fd, (struct sockaddr *) &sa, sizeof(sa)) != 0)
+			vs_fail("harness:peer", "connect");
+		fcntl(fd, F_SETFL, fcntl(fd, F_GETFL) | O_NONBLOCK);
+		vs_settle();
+		vs_case();
+		if (cut > rl && cut < total)
+			vs_nontrivial();
+		if (vp_write_all(fd, st, cut) != 0)
+			vs_fail("harness:peer", "write");
+		vs_settle();
+		vs_sleep(2);
+		if (vp_write_all(fd, st + cut, total - cut) != 0)
+			vs_fail("harness:peer", "write");
+		vs_settle();
+		vs_sleep(2);
+		for (int m = 0; m < 2; m++) {
+			nng_msg *msg = NULL;
+			int      rv  = nng_recvmsg(s, &msg, 0);
+			if (rv != 0)
+				vs_fail("C01:ws:lost",
+				    "cut at %zu (request is %zu bytes): message %d of 2 "
+				    "(size %d) not delivered: %s",
+				    cut, rl, m, lens[m], nng_strerror(rv));
+			if ((int) nng_msg_len(msg) != lens[m])
+				vs_fail("C01:ws:length",
+				    "cut at %zu: message %d has %zu bytes, sent %d", cut, m,
+				    nng_msg_len(msg), lens[m]);
+			for (int i = 0; i < lens[m]; i++)
+				if (((uint8_t *) nng_msg_body(msg))[i] != pat(m, (size_t) i))
+					vs_fail("C01:ws:altered",
+					    "cut at %zu (request is %zu bytes): message %d "
+					    "differs at byte %d of %d",
+					    cut, rl, m, i, lens[m]);
+			nng_msg_free(msg);
+		}
+		close(fd);
+		vs_settle();
+	}
+	vs_outcome("ok");
+	nng_socket_close(s);
+	vh_fini();
+}
+
 static void
 explore(const char *name, void (*fn)(void *), void *arg, int io, int total)
 {
@@ -527,6 +634,12 @@ main(int argc, char **argv)
 			snprintf(name, sizeof(name), "xfer-ws-frag%zu", FR[f]);
 			explore(strdup(name), run_xfer, x, T ? 1 : 0, T ? 1 : 0);
 		}
+	}
+	// (f) raw websocket client: handshake and frames in one cut stream
+	explore("wsraw-len40", run_wsraw, (void *) 40, 0, 0);
+	if (T) {
+		explore("wsraw-len1", run_wsraw, (void *) 1, 0, 0);
+		explore("wsraw-len300", run_wsraw, (void *) 300, 0, 0);
 	}
 	// (e) inproc pull-up
 	explore("inproc-pullup-unique", run_pullup, (void *) 0, 0, 0);
